@@ -18,6 +18,17 @@ def T(quick, thorough, floor=200, **kw):
 
 
 PROPS = {
+    "C02": T(400, 10000, sites=["stable_reuse_vacant_node", "stable_reuse_vacant_edge", "stable_add_vacant_node"],
+             t={"legs": ["debug", "release", "asan", "miri"], "asan_cases_per_shard": 1200, "miri_cases_per_shard": 3},
+             rule="operation histories on StableGraph<u32,u32,Ty,Ix> (2 edge types x 4 index widths; 30-400 ops out of 15 kinds incl. "
+                  "failing try_add_edge/try_update_edge/try_add_node, removal of vacant / out-of-range indices, reverse and clear_edges "
+                  "with vacancies, retain_*, map, filter_map, extend_with_edges targeting vacant indices and indices beyond the bound, "
+                  "clone, Graph::from / StableGraph::from, index_twice_mut; 8-35% absent arguments biased to vacant slots; 1/6 of the u8 "
+                  "histories fill the index space first) against an index-stable multigraph model; after every mutation (<=14 slots) "
+                  "a full sweep + raw free-list invariants from the verif-hooks exporter; boundary probes (retain_*(true), identity "
+                  "filter_map = the library's own debug self-check) during and after, then 10 more valid operations; debug and "
+                  "release at equal volume; non-trivial = >=10 ops and >=1 node vacancy at some point; distinct = hash of (op-kind "
+                  "sequence, final structure)"),
     "C01": T(400, 10000, sites=["graph_index_twice_one", "graph_index_twice_both", "graph_remove_node_swapped", "graph_remove_edge_swapped"],
              t={"legs": ["debug", "release", "asan", "miri"], "asan_cases_per_shard": 1200, "miri_cases_per_shard": 3},
              rule="operation histories on Graph<u32,u32,Ty,Ix> (2 edge types x u8/u16/u32/usize; 30-400 ops out of 16 kinds: add/try_add/"
